@@ -165,6 +165,9 @@ def _plain_leaf(draw, c, spec, names, cand, exclude_from_crossing=()):
         return None
     k = draw(st.integers(1, min(c["max_crossing"], len(pool))))
     crossing = list(draw(st.permutations(pool))[:k])
+    cx = [d["name"] for d in spec["derived"] if d["name"] in pool and d["kind"] != "within"]
+    if cx and not (set(crossing) & set(cx)) and draw(st.integers(0, 4)) < 2:
+        crossing[-1] = draw(st.sampled_from(cx))      # a crossed Transition/Window gives the block a preamble
     leaf = {"type": "cross", "design": list(names), "crossing": crossing, "constraints": [], "rcc": not (c["rcc_false"] and draw(st.booleans()))}
     T = _leaf_T(spec, leaf)
     for _ in range(draw(st.integers(c.get("min_leaf_constraints", 0), c.get("max_leaf_constraints", 1)))):
